@@ -449,7 +449,7 @@ func (e *Exec) stepLookup(fr *frame, st *State, in *ssa.Lookup) {
 	k := e.tval(fr, st, in.Index)
 	switch u := in.X.Type().Underlying().(type) {
 	case *types.Map:
-		e.mapCardFacts(st, u, x.T)
+		e.mapAccess(fr, st, e.val(fr, in.X), false, in.Pos())
 		v := Val{T: e.mapGet(st, u, x.T, k.T), S: e.ctx.sortOf(u.Elem()), GoT: u.Elem()}
 		if in.CommaOk {
 			ok := Val{T: e.mapHas(st, u, x.T, k.T), S: sBool}
@@ -471,6 +471,7 @@ func (e *Exec) stepMapUpdate(fr *frame, st *State, in *ssa.MapUpdate) {
 	v := e.tval(fr, st, in.Value)
 	mt := in.Map.Type().Underlying().(*types.Map)
 	e.oblige(fr, st, "nilmap", "assignment to entry in nil map", in.Pos(), not(eq(m.T, "0")))
+	e.mapAccess(fr, st, e.val(fr, in.Map), true, in.Pos())
 	e.mapStore(fr, st, mt, m.T, k.T, v.T, in.Pos())
 }
 
@@ -572,6 +573,7 @@ func (e *Exec) stepRange(fr *frame, st *State, in *ssa.Range) {
 	fr.rangeGhost[in] = name
 	switch u := in.X.Type().Underlying().(type) {
 	case *types.Map:
+		e.mapAccess(fr, st, e.val(fr, in.X), false, in.Pos())
 		ks := e.ctx.sortOf(u.Key())
 		st.ghost[name+"$visited"] = Val{T: fmt.Sprintf("((as const %s) false)", arraySort(ks, sBool)), S: arraySort(ks, sBool)}
 		st.ghost[name+"$n"] = Val{T: "0", S: sInt}
@@ -752,7 +754,44 @@ func (e *Exec) unbox(t string, gt types.Type) string {
 }
 
 func (e *Exec) stepGo(fr *frame, st *State, in *ssa.Go) {
-	e.note("%s: go statement: the spawned function is verified on its own; the spawner's view of shared memory is havoced", e.w.pos(in.Pos()))
+	// the spawned function is verified on its own under its `requires`; they
+	// are checked here, at the spawn site
+	var callee *ssa.Function
+	var bindings []Val
+	fv := e.val(fr, in.Call.Value)
+	if fv.Clo != nil {
+		callee, bindings = fv.Clo.Fn, fv.Clo.Bindings
+	} else if sc := in.Call.StaticCallee(); sc != nil {
+		callee = sc
+	}
+	if callee != nil {
+		if spec := e.specOf(callee); spec != nil {
+			env := &SpecEnv{ex: e, st: st, old: st, vars: map[string]Val{}, fn: callee, spec: spec, callerFr: fr}
+			names := paramNames(callee, in.Call.Signature())
+			for i, a := range in.Call.Args {
+				if i < len(names) {
+					v := e.tval(fr, st, a)
+					v.GoT = callee.Params[i].Type()
+					env.vars[names[i]] = v
+				}
+			}
+			for i, fvv := range callee.FreeVars {
+				if i < len(bindings) && bindings[i].T != "" {
+					// a captured variable is named by its content in contracts
+					t := fvv.Type().Underlying().(*types.Pointer).Elem()
+					env.vars[fvv.Name()] = env.loadRef(bindings[i].T, t)
+				}
+			}
+			for _, c := range spec.Requires {
+				v := env.eval(c.E)
+				e.oblige(fr, st, "pre:go:"+callee.Name(), "precondition of spawned "+funcKey(callee)+": "+c.Src, in.Pos(), v.T)
+			}
+			e.trust("preconditions of goroutine " + funcKey(callee) + " are checked at the go statement and assumed stable until it runs")
+		} else {
+			e.note("%s: go statement spawns %s which has no contract", e.w.pos(in.Pos()), funcKey(callee))
+		}
+	}
+	e.note("%s: go statement: the spawner's view of shared memory is havoced", e.w.pos(in.Pos()))
 	e.havocAll(st)
 }
 
@@ -807,4 +846,14 @@ func sortedRanges(m map[*ssa.Range]string) []*ssa.Range {
 	}
 	sort.Slice(out, func(i, j int) bool { return m[out[i]] < m[out[j]] })
 	return out
+}
+
+// mapAccess: reading/writing the contents of a map that was loaded from a
+// struct field with an `access` rule counts as access to that field.
+func (e *Exec) mapAccess(fr *frame, st *State, m Val, write bool, pos token.Pos) {
+	if m.From == "" || e.spec == nil || len(e.spec.Access) == 0 {
+		return
+	}
+	parts := strings.SplitN(m.From, ".", 2)
+	e.accessRules(fr, st, parts[0], parts[1]+"[]", m.FromOwner, write, pos)
 }
